@@ -529,6 +529,7 @@ def obligations(tier, seed):
         for pos in (spaces[::3] if q else spaces):
             obs.append(dict(name='layout_s%d_p%d' % (si, pos), func='h_layout', param=dict(seed=si, pos=pos), timeout=to))
     obs.append(dict(name='labels', func='h_labels', param={}, timeout=to))
+    obs.append(dict(name='translate_atoms', func='h_translate_atoms', param={}, timeout=to))
     return obs
 
 
@@ -556,3 +557,59 @@ def validate(tier, seed):
                 bad.append((smi, 'bond', b.GetIdx()))
     return [dict(name='RDKit fakes vs real atoms/bonds/ring info on 4 molecules (IsInRing, GetBonds, GetNeighbors)', ok=not bad,
                  n=n, detail='mismatch: %r' % bad[:3])]
+
+
+SYMS2 = ['C', 'O', 'N']
+SFX2 = ['', '+', '-', '.', '?']
+
+
+def h_translate_atoms(d: bool):
+    """
+    post: _[0]
+    """
+    begin()
+    # a two-atom fragment: each labelled atom's element class and charge/radical suffix must be translated from ITS OWN text
+    # (query atoms recorded by the RDKit fakes; nothing may be shared between the atoms of one fragment)
+    import pgradd.RINGParser.MolQueryRead  # noqa: F401
+    import pgradd.RINGParser.ReactionQueryRead  # noqa: F401
+    import pgradd.RDkitWrapper.ReactionQuery  # noqa: F401
+    s1, s2 = SYMS2[choose('sym1', 3)], SYMS2[choose('sym2', 3)]
+    f1, f2 = SFX2[choose('sfx1', 5)], SFX2[choose('sfx2', 5)]
+    text = 'fragment a{%s%s labeled a1 %s%s labeled a2 single bond to a1}' % (s1, f1, s2, f2)
+    undo = rf.install_reader_fakes()
+    try:
+        with NoTracing():
+            q = Read(text)
+    except Exception as e:
+        return finish(False, 'translate_atoms: %r raised %s' % (text, type(e).__name__))
+    finally:
+        undo()
+    zmap = {'C': 6, 'O': 8, 'N': 7}
+    for idx, (sy, sf) in enumerate(((s1, f1), (s2, f2))):
+        atom = q.mol.atoms[idx]
+        desc = [x if not isinstance(x, tuple) or x[0] is not None else x[1] for x in atom.desc]
+        flat = []
+        for x in atom.desc:
+            flat.append(x[1] if (isinstance(x, tuple) and len(x) == 2 and isinstance(x[1], list)) else x)
+        kinds = []
+        for x in atom.desc:
+            if isinstance(x, tuple) and x and x[0] in ('AtomNumEquals', 'FormalChargeEquals', 'AtomNumGreater', 'TotalValenceEquals'):
+                kinds.append(x)
+            elif isinstance(x, tuple) and len(x) == 2 and isinstance(x[1], list):
+                kinds += [y for y in x[1] if isinstance(y, tuple)]
+        want = [('AtomNumEquals', zmap[sy])]
+        if sf in ('', ):
+            want.append(('FormalChargeEquals', 0))
+        elif sf == '+':
+            want.append(('FormalChargeEquals', 1))
+        elif sf == '-':
+            want.append(('FormalChargeEquals', -1))
+        if kinds != want:
+            return finish(False, 'translate_atoms: atom %d of %r is queried as %r, its own text says %r' % (idx + 1, text, kinds, want))
+        rad = [c for c in q.atom_constraints.get(idx, []) if isinstance(c, MQ.AtomRadical)]
+        need = {'': '=0', '.': '=1'}.get(sf)
+        if (need is None) != (not rad):
+            return finish(False, 'translate_atoms: radical constraint of atom %d of %r' % (idx + 1, text))
+    if q.mol.atoms[0] is q.mol.atoms[1]:
+        return finish(False, 'translate_atoms: the two atoms share one query object')
+    return finish(True, 'ok')
